@@ -22,7 +22,8 @@ claimed = {
  'C04': ("Proved for every token stream (ghost stream, arbitrary): each production consumes its closing token on every success path (filter, index, selectArray, "
          "selectObject, function*Arg, parse ends on End), list separators are commas, multi-select keys are identifiers, let bindings are `$name =`; lexer: "
          "decodeRune classification, scanners return exactly expression[start:position] ending in their delimiter, position strictly increases; parseError classification. "
-         "Not covered: completeness (every grammar member compiles), JSON literal validity, escape validation in quoted identifiers.",
+         "white space between tokens is exactly space, tab, LF, CR; every AST node parsed or built ends up in the result (linear ghost: nothing parsed is dropped); arity faults only at separators. "
+         "Not covered: completeness (every grammar member compiles), escape validation in quoted identifiers (two defects seen by reading, see DESIGN.md).",
          "contracts + VC generation over go/ssa + SMT"),
  'C05': ("Proved: toDecimal is exact per kind and never goes through float for non-float inputs (json.Number through decimal128.Parse of its text); + - * / // % abs ceil floor "
          "and the four comparisons are exactly the decimal128 operation on the operands' decimal values in argument order, Inf/NaN results become ErrInfinity/ErrNotANumber; "
@@ -38,7 +39,8 @@ claimed = {
          "contracts + site assertions + VC generation over go/ssa + SMT"),
  'C12': ("Proved for all lengths and all 64-bit start/stop/step: slice and sliceStep on arrays return exactly the elements of Python's slice.indices walk (count and each element, "
          "nonlinear count identity discharged by SMT); on strings: slice returns exactly the code-point window, sliceStep returns the walk's number of code points on boundaries; "
-         "parser.index always closes on `]`. Not yet: which code points a stepped string slice selects, parser defaults for absent parts, step 0 error.",
+         "parser.index always closes on `]`; the slice nodes get the written start, the defaults 0 / MaxInt / MinInt for absent start and stop by the sign of the step, decided by the presence of the tokens and not by the values. "
+         "Not covered: which code points a stepped string slice selects, the value of a written stop and step.",
          "contracts + loop invariants + VC generation over go/ssa + SMT"),
  'C14': ("Proved: isNumber, isTrue, typeName, toNumber, toDecimal, toFloat, toFloatPair, toInt, equal and the arithmetic/comparison operators are specified only through the numeric "
          "abstraction (isNum/numDec) and hold for every one of the 14 numeric kinds (a forgotten kind fails for that tag). Not covered: float fast path vs decimal path value agreement.",
@@ -63,6 +65,12 @@ claimed = {
          "and every loop over a map (10 of them) must carry a proved invariant tagged C15 that ties what the loop has computed to the set of members visited (let bindings, multi-select hashes, merge, object equality) or, for the permitted enumerations "
          "(keys, values, items, object wildcard), to the number of members visited. Which invariant is adequate is a reviewed choice, not a proved meta-theorem; cross-process equality follows from the absence of address- or time-dependent operations (none in the SSA of the reachable code).",
          "sweep obligations (map-range loops need order-insensitivity invariants; global stores, concurrency and unmodelled externals are rejected) over go/ssa + SMT"),
+ 'C18': ("Closure of results under the JSON carriers, as a sweep over every function of the evaluator reachable from the API: every value the library itself turns into an `any` has a carrier type "
+         "(bool, string, an integer or float kind, json.Number, decimal, []any, map[string]any) and every decimal or float64 it creates is finite, under the induction hypothesis that every value received "
+         "(parameter, callee result, element read from an array or object) is a finite JSON value; by induction over the evaluation every result consists of input values and such created values. The pipe case of evaluate "
+         "evaluates the right side on the left result with the same root and scope (search(e2, search(e1, d)) == search(e1 | e2, d) up to the root node). "
+         "Assumed: decimal128 parses/unmarshals JSON number text only to finite values; encoding/json accepts these carriers. Not covered: independence of e2 from the root (structural lemma over the AST), serialisation itself.",
+         "sweep obligations at every conversion to `any` (carrier type, finiteness under an explicit induction hypothesis) + per-case contract of evaluate, over go/ssa + SMT"),
 
  'C03': ("Zero-annotation safety sweep over every function reachable from Search/Compile/MustCompile/Expression.Search and over every Error/Is/Unwrap method: one obligation per index, slice, nil dereference, "
          "unchecked type assertion, division, make size, explicit panic and external precondition (e.g. Decimal.Int64 on NaN), proved for all inputs with loop invariants where needed; AST well-formedness "
